@@ -60,6 +60,13 @@ def dist_events(n, g, id0, cuts, with_lists=True):
             tab = net2.all_shortest_distances(cut=(1e300 if cut >= 999999 else cut))
         ev.append({"id": id0 + len(ev), "ev": "table", "n": n, "g": g, "cut": cut,
                    "pairs": [[k[0], k[1], wire(v)] for k, v in tab.items()]})
+        if cut < 999999:                    # the same table through prepare(cut) and the prepared-distance getters
+            net4 = build_network(n, g)
+            with core.quiet():
+                net4.prepare(cut=cut, verbose=False)
+                pairs = [[s, t, wire(net4.prepared_shortest_distance(s, t))] for s in range(n) for t in range(n)
+                         if net4.has_prepared_shortest_distance(s, t)]
+            ev.append({"id": id0 + len(ev), "ev": "table", "n": n, "g": g, "cut": cut, "pairs": pairs, "api": "prepare"})
     net3 = build_network(n, g)
     with core.quiet():
         net3.prepare(verbose=False)
